@@ -6,18 +6,30 @@ import ast
 
 from ..source import AnalysisError, norm_text
 from .common import calls_in, parent_map, stmt_of, walk_no_nested
+from .geo import _helper_like
 
 TRAJ = 'gemdat.trajectory.Trajectory'
 
 
 def loaders(ctx):
+    """(loader, function holding the cache write): public classmethods that write the cache themselves or through private helpers."""
     ci = ctx.p.cls(TRAJ)
     out = []
     for name, fi in ci.methods.items():
-        if not fi.is_classmethod:
+        if not fi.is_classmethod or name.startswith('_'):
             continue
         if any(isinstance(c.func, ast.Attribute) and c.func.attr == 'to_cache' for c in calls_in(fi.node)):
-            out.append(fi)
+            out.append((fi, fi))
+            continue
+        it = ctx.entry(fi.qualname)
+        owners = []
+        for e in it.events:
+            if e['tag'] == 'call' and e['callee'] == f'{TRAJ}.to_cache' and e['where'] is not None and fi.qualname in e['ctx']:
+                chain = e['ctx'][e['ctx'].index(fi.qualname) + 1:]
+                if chain and all(_helper_like(q) for q in chain) and e['where'] not in owners:
+                    owners.append(e['where'])
+        if len(owners) == 1:
+            out.append((fi, owners[0]))
     return out
 
 
@@ -33,13 +45,15 @@ def check(ctx):
     ctx.floor('R1', 3, '3 loaders')
     ctx.floor('R3', 3, '3 cache reads')
     ctx.floor('R2', 3, '3 loaders')
-    for fi in ls:
-        check_loader(ctx, fi)
+    for fi, wf in ls:
+        check_loader(ctx, fi, wf)
     check_pickle(ctx)
 
 
-def check_loader(ctx, fi):
-    it = ctx.entry(fi.qualname)
+def check_loader(ctx, lf, fi):
+    """`lf`: the public loader (its parameters are the cache key); `fi`: the function that tests, reads and writes the cache -
+    the loader itself or the private helper it delegates to. Values are those of the loader's own run."""
+    it = ctx.entry(lf.qualname)
     fnode = fi.node
     pm = parent_map(fnode)
     cfg = ctx.cfg(fi.qualname)
@@ -206,9 +220,19 @@ def check_loader(ctx, fi):
                 ctx.ob('R2', fi, mut, False, f'`{norm_text(mut)}` changes the trajectory after it was written to the cache: a later load from '
                                              f'the cache returns a different trajectory than parsing the source files')
     # ---------------- R1 key completeness
-    params = [p for p in fi.params() if p not in ('cls', pname)]
-    if fi.node.args.kwarg:
-        params.append(fi.node.args.kwarg.arg)
+    lname = pname
+    if lf is not fi:
+        # the loader's own name of the path: the argument it passes for the helper's path parameter
+        hp = [x for x in fi.params() if x not in ('cls', 'self')]
+        for e in it.events:
+            if e['tag'] == 'call' and e['callee'] == fi.qualname and isinstance(e['node'], ast.Call) and pname in hp:
+                pos = hp.index(pname)
+                an = e['node'].args[pos] if pos < len(e['node'].args) else next((k.value for k in e['node'].keywords if k.arg == pname), None)
+                if isinstance(an, ast.Name):
+                    lname = an.id
+    params = [p for p in lf.params() if p not in ('cls', lname)]
+    if lf.node.args.kwarg:
+        params.append(lf.node.args.kwarg.arg)
     # value of the path variable where it is consumed
     key_deps = set()
     for c in from_cache_calls + exists_calls + to_cache_calls:
@@ -226,14 +250,22 @@ def check_loader(ctx, fi):
         if v is not None and v.deps:
             res_deps |= set(v.deps)
         # attributes stored into the object (constructor keywords) are part of the result
+    if lf is not fi and it.result is not None and it.result.deps:
+        res_deps |= set(it.result.deps)
     for e in it.events:
-        if e['tag'] in ('construct', 'traj_init') and e['where'] is not None and e['where'].qualname == fi.qualname:
+        if e['tag'] in ('construct', 'traj_init') and e['where'] is not None and \
+                (e['where'].qualname == fi.qualname or (lf is not fi and lf.qualname in e['ctx'])):
             for a in list(e.get('args', [])) + list(e.get('kwargs', {}).values()):
                 if a is not None and a.deps:
                     res_deps |= set(a.deps)
     ctl_deps = {}
-    for n in walk_no_nested(fnode):
-        if isinstance(n, ast.If) and first_read is not None and n.lineno > first_read:
+    gate_ifs = [n for n in walk_no_nested(fnode) if isinstance(n, ast.If) and first_read is not None and n.lineno > first_read]
+    if lf is not fi:
+        # the parse lives in the loader (typically as a closure handed to the helper): its guards decide what is parsed
+        gate_ifs += [n for n in ast.walk(lf.node) if isinstance(n, ast.If)
+                     and not any(isinstance(w, ast.Name) and w.id == lname for w in ast.walk(n.test))]
+    for n in gate_ifs:
+        if True:
             gates = any(isinstance(w, (ast.Raise, ast.Return)) for b in n.body + n.orelse for w in walk_no_nested(b))
             if gates:
                 v = it.value_of(n.test)
@@ -244,7 +276,7 @@ def check_loader(ctx, fi):
                             ctl_deps[dname] = n
             # a test on the path variable itself is the cache logic, not the parse
     for p in params:
-        dep = f'param:{fi.name}.{p}'
+        dep = f'param:{lf.name}.{p}'
         affects = dep in res_deps or dep in ctl_deps
         in_key = dep in key_deps
         if not affects:
@@ -252,15 +284,15 @@ def check_loader(ctx, fi):
         how = 'flows into the parsed trajectory' if dep in res_deps else f'decides `{norm_text(ctl_deps[dep].test)}` before the parse'
         lossy = sorted(d.split('#')[1] for d in key_deps if d.startswith(dep + '#'))
         if in_key:
-            ctx.ob('R1', fi, f'parameter {p}', True, f'{how}; part of the default cache path')
+            ctx.ob('R1', lf, f'parameter {p}', True, f'{how}; part of the default cache path')
         elif lossy:
             what = {'keys': 'only the keys', 'len': 'only the length', 'bool': 'only the truth value', 'type': 'only the type', 'dir': 'only the directory',
                     'part': 'only a part of the text'}.get(lossy[0], lossy[0])
-            ctx.ob('R1', fi, f'parameter {p}', False,
+            ctx.ob('R1', lf, f'parameter {p}', False,
                    f'`{p}` {how}, but {what} of it reach the default cache path: two different values of `{p}` with the same '
                    f'{lossy[0]} share one cache file and the second call returns the trajectory of the first')
         else:
-            ctx.ob('R1', fi, f'parameter {p}', False,
+            ctx.ob('R1', lf, f'parameter {p}', False,
                    f'`{p}` {how} but not into the default cache path: a second call with a different `{p}` '
                    f'silently returns the trajectory cached for the first')
 
